@@ -22,6 +22,9 @@ type hidRec struct {
 	roots  []*ssa.Function
 	selfFn *ssa.Function
 	rooted bool
+	// the unit opted in (`usestable`), optionally for some declarations only
+	useStable bool
+	useOnly   []string
 }
 
 // ---------------------------------------------------------------------------
@@ -162,7 +165,7 @@ func (u *Unit) havocAll(st *State, why string) {
 	sort.Slice(keepMaps, func(i, j int) bool { return keepMaps[i].ref.S < keepMaps[j].ref.S })
 	prevHeap, prevHid, frontier := st.Heap, st.Hid, st.allocTerm()
 	st.Heap = map[string]Term{}
-	st.Hid = u.newHid(hidRec{kind: 1, prev: prevHid, prevHeap: prevHeap, frontier: frontier, roots: u.havocRoots, selfFn: u.havocSelf, rooted: u.havocRooted})
+	st.Hid = u.newHid(hidRec{kind: 1, prev: prevHid, prevHeap: prevHeap, frontier: frontier, roots: u.havocRoots, selfFn: u.havocSelf, rooted: u.havocRooted, useStable: u.c != nil && u.c.UseStable, useOnly: u.useOnly()})
 	u.havocRoots, u.havocSelf, u.havocRooted = nil, nil, false
 	defer func() {
 		for _, k := range keep {
@@ -639,4 +642,11 @@ func (u *Unit) mergeVal(c Term, a, b Value) Value {
 	}
 	u.unsupported(fmt.Sprintf("merge of %T", a))
 	return a
+}
+
+func (u *Unit) useOnly() []string {
+	if u.c == nil {
+		return nil
+	}
+	return u.c.UseStableOnly
 }
